@@ -89,6 +89,11 @@ CHECKS = {
              "(the overlapping variant is shown to violate it); every line sequence is replayed as an instrument, a sync and an events section with junk drawn from foreign-section lines, unsupported indices, malformed lines; "
              "TLC judges per-kind claimed line indices, one report per unparsable line naming it, claimed + reported = body lines, and digest equality with the junk-free section (Props!C14V); seeded noisy sections up to 30 lines.",
         design="5 (C14)", technique="TLA+ model checking (TLC) of the dispatcher + spec->code replay + TLC trace validation"),
+    "C18": dict(
+        text="TLC enumerates every depth-1 edit script (delete, duplicate, swap, 6 placements x 8 character classes, at every line) over two base charts (Faults.tla; depth 2 exhaustively in the thorough tier), "
+             "-simulate yields depth-2/3 scripts and files assembled from a 48-fragment alphabet (Fragments.tla); the scanner / tempo / note machines are total with only documented reject branches "
+             "(Framing!Total, TempoMap, NoteTrack); every generated file is parsed by the real code (16 processes) and TLC judges the outcome class and str()/repr() of the chart and of every event (Props!C18V).",
+        design="5 (C18)", technique="TLC enumeration and simulation of fault sequences replayed into the parser + TLC trace validation of outcome classes"),
 }
 
 PENDING = {}
